@@ -1908,6 +1908,10 @@ class _AbstractIterable(_AbstractIterableBase):
 
 class _ObjStyleKeysMeta(type):
     def __instancecheck__(cls, C):
+        if isinstance(C, (list, tuple, set, frozenset)):
+            # a subclass instance with a __dict__ is still a sequence / set:
+            # its children are its items, not its attributes
+            return False
         return hasattr(C, "__dict__") and hasattr(C.__dict__, "keys")
 
 
